@@ -387,7 +387,10 @@ def small_circular_specs(draw) -> dict:
                                      ["or", [["id", first], ["id", second]]],
                                      ["cds", ["and", [["id", first], ["id", second]]]],
                                      ["and", [["id", first], ["not", ["id", second]]]],
-                                     ["minimum", 2, [first, second]]]))
+                                     ["minimum", 2, [first, second]],
+                                     ["and", [["id", first], ["minscore", second, 50]]],
+                                     ["and", [["minscore", first, 50], ["minscore", second, 120]]],
+                                     ["minscore", first, 50]]))
         extenders = ["id", draw(st.sampled_from(PROFILES))] if draw(st.integers(0, 4)) == 0 else None
         spec_rules.append({"name": f"r{index}", "conditions": tree, "superiors": superiors, "extenders": extenders,
                            "cutoff": draw(st.sampled_from([1, 2, 4, 7])),
@@ -400,7 +403,7 @@ def small_circular_specs(draw) -> dict:
     hits = {}
     for gene in genes:
         chosen = draw(st.lists(st.sampled_from(used + PROFILES[:1]), min_size=0, max_size=2, unique=True))
-        hits[gene["name"]] = {p: 100 for p in chosen}
+        hits[gene["name"]] = {p: draw(st.sampled_from([100, 100, 150, 30])) for p in chosen}
     return {"L": length, "circular": True, "genes": genes, "hits": hits, "rules": spec_rules}
 
 
@@ -442,6 +445,9 @@ def two_gene_rule_specs(draw) -> dict:
         ["and", [["id", "a"], ["id", "b"]]], ["minimum", 2, ["a", "b"]],
         ["and", [["id", "a"], ["not", ["id", "c"]], ["id", "b"]]],
         ["or", [["and", [["id", "a"], ["id", "b"]]], ["id", "d"]]],
+        # scores that have to be found on the neighbouring gene, from either side
+        ["and", [["minscore", "a", 80], ["minscore", "b", 50]]],
+        ["and", [["id", "a"], ["minscore", "b", 50]]],
     ]))
     hits = {"g0": {"a": 100}, "g1": {"b": 100}}
     if len(genes) > 2:
